@@ -82,9 +82,18 @@ def compile_all(ctx, cases, budget_s):
     import time
 
     out = [None] * len(cases)
-    order = list(range(len(cases)))
-    random.Random(ctx.seed).shuffle(order)
-    head = order[: max(300, len(order) // 20)]
+    # order: round-robin over strata (origin, set of statement kinds), seeded shuffle inside a stratum, so that
+    # whatever prefix gets compiled exercises every mutator on every origin
+    rnd = random.Random(ctx.seed)
+    strata = {}
+    for i, c in enumerate(cases):
+        strata.setdefault((c["origin"], tuple(sorted({st["op"] for st in c["prog"]}))), []).append(i)
+    groups = [strata[k] for k in sorted(strata)]
+    for g in groups:
+        rnd.shuffle(g)
+    rnd.shuffle(groups)
+    order = [g[k] for k in range(max(map(len, groups))) for g in groups if k < len(g)]
+    head = order[: max(300, len(groups), len(order) // 20)]
     t0 = time.time()
     go(head)
     rate = len(head) / max(time.time() - t0, 1e-3)
